@@ -337,3 +337,23 @@ CHECKS["C15"] = {
                   "itself, and the serde/bincode form must accept and produce exactly the same strings. Every kind of proof the prover outputs over the lattice (up to 64x32) must round-trip with the stated length.",
     "level_note": "Known finding (not a false alarm): prover outputs with zero folding rounds are refused by the decoder; listed in known_findings.json.",
 }
+
+CHECKS["C17"] = {
+    "title": "Constructors accept exactly the documented parameter space",
+    "level": "exploration",
+    "technique": "runtime monitoring: exhaustive enumeration of the stated finite input space of every validating constructor under catch_unwind; oracle = independently written domain predicate + read-back of accessors (no silent adjustment)",
+    "design_ref": "DESIGN.md section 4 C17",
+    "legs": [{"name": "fm", "shards": 16}, {"name": "ris", "shards": 16}],
+    "rule": "one case = one constructor call: RangeParameters::init for bits 0..=130 x capacity 0..=130 (both groups; on Ristretto valid sets up to capacity 32 (quick) / 128 (thorough) build real tables); "
+            "RangeStatement::init for 0..=17 commitments x capacity {1,2,4,8,16} x promise count {0, m-1, m, m+1} x seed; RangeWitness::init for 0..=17 openings x blinding counts 0..=8 uniform and with one odd opening at each position "
+            "(+ counts 255..263, 512.., 65537..); ExtendedMask::assign and PedersenGens::commit for length 0..=8 x degree 1..=6; ExtensionDegree::try_from for all u8 and usize 0..=300 and around 2^8, 2^16, 2^32, 2^48, MAX; "
+            "each enumerated input is a distinct case",
+    "exhaustive": {"quick": True, "thorough": True},
+    "require": {"quick": {"parameter_constructions": 34000, "parameter_sets_built": 80, "statement_constructions": 1300, "witness_constructions": 3000, "mask_and_commit_constructions": 108, "degree_conversions": 600},
+                "thorough": {"parameter_constructions": 34000, "parameter_sets_built": 110, "statement_constructions": 1300, "witness_constructions": 3000, "mask_and_commit_constructions": 108, "degree_conversions": 600}},
+    "assumptions": COMMON_ASSUMPTIONS + ["the 'documented domain' is the one in the property statement; the enumeration is complete for the stated finite ranges, larger arguments are sampled only around powers of two",
+                                         "quick skips building real Ristretto tables for the valid parameter sets with capacity 64 and 128 (thorough builds them)"],
+    "level_text": "Calls every validating constructor on its whole stated finite input space (17 161 (bits, capacity) pairs per group, every statement / witness / mask / commitment shape, every u8 and the listed usize values), "
+                  "each under catch_unwind: Ok must coincide with an independently written predicate of the documented domain, and whenever a constructor succeeds the accessors must return exactly what was requested.",
+    "level_note": "Finite space enumerated completely (exhaustive for the stated bounds). Trusted: the harness's domain predicates.",
+}
